@@ -936,7 +936,8 @@ def _hill_compare(a, b):
 def _hill_key(a):
     return "".join((("0" if a.symbol in ("C", "H") else "1"),
                     a.symbol,
-                    "%4d"%(a.isotope if isisotope(a) else 0)))
+                    "%4d"%(a.isotope if isisotope(a) else 0),
+                    "%+3d"%a.charge))
 
 def _convert_to_hill_notation(atoms):
     """
